@@ -757,7 +757,7 @@ fn u_steal_global_at_zeroed_o0() {
     u_comp_body::<2>(Cfg::Zeroed, 2, 0, true, 8)
 }
 
-// @h props=C13 tier=quick geom=1 panics=C09 mem=C18
+// @h props=C13 tier=thorough geom=1 panics=C09 mem=C18
 #[kani::proof]
 #[kani::unwind(10)]
 fn u_steal_local_zeroed_c2_o0() {
@@ -771,7 +771,7 @@ fn u_steal_local_zeroed_c0_o0() {
     u_comp_body::<2>(Cfg::Zeroed, 3, 0, false, 0)
 }
 
-// @h props=C13 tier=quick geom=1 panics=C09 mem=C18
+// @h props=C13,C09 tier=thorough geom=1 panics=C09 mem=C18
 #[kani::proof]
 #[kani::unwind(10)]
 fn u_demote_local_zeroed_c0_o0() {
@@ -911,7 +911,7 @@ fn u_steal_global_simple_o9() {
     u_comp_body::<2>(Cfg::Simple, 2, 9, false, 8)
 }
 
-// @h props=C04,C13 tier=quick geom=1 panics=C09 mem=C18
+// @h props=C04,C13 tier=thorough geom=1 panics=C09 mem=C18
 #[kani::proof]
 #[kani::unwind(10)]
 fn u_steal_local_at_zeroed_c2_o0() {
